@@ -1,6 +1,10 @@
-/- line-protocol driver for C05: `drv_c05 <sub-command>` reads operations on stdin, prints one canonical line per operation.
+/- line-protocol driver for C05: `drv_c05 init` (see Driver/InitCmd.lean for the protocol).
    Core Lean only (nothing imported here may import Mathlib, or the executable will not link). -/
+import ChibiVerif.Driver.InitCmd
 
 def main (args : List String) : IO UInt32 := do
-  IO.eprintln s!"drv_c05: no sub-commands yet (args {args})"
-  return 2
+  match args with
+  | "init" :: _ => ChibiVerif.Driver.InitCmd.initMain
+  | _ =>
+    IO.eprintln "usage: drv_c05 init"
+    return 2
